@@ -6,7 +6,7 @@ sly / re for a given input are NOT decided.
 """
 import ast
 
-from ..source import AnalysisError, norm, dotted, walk_no_nested, enclosing_function, enclosing_class
+from ..source import const_str,  AnalysisError, norm, dotted, walk_no_nested, enclosing_function, enclosing_class
 from ..grammar import load_dialect, DIALECTS
 from ..pymodel import model_for
 from ..actions import ActionKinds
@@ -199,6 +199,37 @@ def check_reachability(ctx):
                    file=lex.file, line=r.line)
 
 
+def check_regex_linear(ctx):
+    """Termination, one necessary condition: no regular expression applied to user text on the parse path has an unbounded repeated group that can split some
+    string in two ways (on a non-matching continuation a backtracking engine tries every split: exponential time).  Patterns: every token rule of the three
+    lexers and every constant pattern passed to re.* in mindsdb_sql/__init__.py and mindsdb_sql/parser/**."""
+    from ..lexmodel import unbounded_groups, ambiguous_loop
+    from ..grammar import load_dialect, DIALECTS
+    pats = {}
+    for d in DIALECTS:
+        lex = load_dialect(ctx.src, d).lexer
+        for r in lex.rules:
+            for part in (r.parts or [r.pattern]):
+                pats.setdefault(part, []).append((r.file, r.line, f'{d} token {r.name}', lex.reflags))
+    files = ['mindsdb_sql/__init__.py'] + [f for f in ctx.src.py_files('mindsdb_sql/parser')]
+    for f in files:
+        for n in ast.walk(ctx.src.tree(f)):
+            if isinstance(n, ast.Call) and (dotted(n.func) or '').startswith('re.') and n.args and const_str(n.args[0]) is not None:
+                pats.setdefault(n.args[0].value, []).append((f, n.lineno, f'{dotted(n.func)}() in {f.split("/")[-1]}', 0))
+    nloops = 0
+    for pat, sites in sorted(pats.items()):
+        for body, q in unbounded_groups(pat):
+            nloops += 1
+            wit = ambiguous_loop(body, sites[0][3])
+            f, line, what, _ = sites[0]
+            ctx.ob('C02.regex-linear', f'{what}:({body}){q}'[:110], wit is None,
+                   f'{what}: the repeated group `({body}){q}` of the pattern {pat!r} can split the text {wit[0]!r} into iterations in {wit[1]} different ways: '
+                   f'when the rest of the pattern then fails (e.g. an unterminated literal) the regex engine tries every split - exponential time, parse_sql does not '
+                   f'return' if wit else '', file=f, line=line, witness="select '" + "\\\\" * 40)
+    ctx.setcount('regex_patterns', len(pats))
+    ctx.setcount('regex_unbounded_groups', nloops)
+
+
 def run(ctx):
     ctx.explanation = (
         'May-raise analysis of the repository-owned parse path. Grammar actions: for each of the three dialects the semantic-'
@@ -210,9 +241,11 @@ def run(ctx):
         'R7 attribute of None or of a kind without it, R8 raise of a non-parsing exception, R9 iteration over None, R10 '
         'constructor keyword/arity mismatch. Non-action code on the path (parse_sql, ErrorHandling, lexer actions and error '
         'callbacks, parser helpers): explicit raises, asserts, partial standard-library calls, completeness of made-up tokens. '
-        'Thorough adds token reachability under the ordered lexer. NOT decided: termination, RecursionError, exceptions raised '
+        'Termination, one necessary condition (regex-linear): no repeated group of a token pattern or of a regex applied by parse_sql / parser helpers is ambiguous '
+        '(exhaustive over short strings), so no input makes the regex engine backtrack exponentially. '
+        'Thorough adds token reachability under the ordered lexer. NOT decided: termination in general, RecursionError, exceptions raised '
         'inside sly or re; constructs outside the listed classes (f-strings, comparisons) are assumed non-raising.')
-    ctx.not_decided = ['termination and RecursionError', 'exceptions raised inside sly / re for a given input',
+    ctx.not_decided = ['termination beyond regex backtracking (LR driver loop, recursion depth) and RecursionError', 'exceptions raised inside sly / re for a given input',
                        'raise-capable constructs outside R1-R10 (stated unsoundness)']
     ctx.assumptions = ['sly calls each action with a YaccProduction whose name map is the one sly computes for that production',
                        'instances of repository classes are truthy; Identifier.parts is a non-empty list whose only possible '
@@ -221,6 +254,7 @@ def run(ctx):
     check_actions(ctx, model)
     check_closure(ctx)
     check_synth_tokens(ctx)
+    check_regex_linear(ctx)
     if ctx.tier == 'thorough':
         check_reachability(ctx)
     ctx.floor('grammar_actions', 200 + 100 + 80)
@@ -229,4 +263,6 @@ def run(ctx):
     ctx.floor('closure_functions', 25)
     ctx.floor('closure_raise_capable_sites', 8)
     ctx.floor('synthesised_tokens', 1)
+    ctx.floor('regex_patterns', 200)
+    ctx.floor('regex_unbounded_groups', 4)
     ctx.floor('constructor_summaries', 75)
